@@ -102,14 +102,21 @@ def build_old_file(nix, np, rng, path):
         for pi in range(rng.randint(0, 6)):
             typ = rng.choice(["int", "float", "str", "bool"])
             n = rng.randint(0, 5)
-            vals = {"int": [rng.randint(-5, 5) for _ in range(n)],
+            # integer values as other tools store them: any width, signed or not (values near the ends of the type's range)
+            ityp = rng.choice(["int64", "int64", "int64", "int32", "int16", "uint8", "uint32", "uint64"]) if typ == "int" else None
+            if ityp not in (None, "int64"):
+                ii = np.iinfo(ityp)
+                ivals = [rng.choice([ii.max, ii.max - rng.randint(0, 9), ii.min, rng.randint(0, 100)]) for _ in range(n)]
+            else:
+                ivals = [rng.choice([rng.randint(-5, 5), 2 ** 63 - 1, -2 ** 63]) if rng.random() < 0.2 else rng.randint(-5, 5) for _ in range(n)]
+            vals = {"int": ivals,
                     "float": [rng.choice([0.5, -1.25, 1e300, 3.0, -0.0]) for _ in range(n)],
                     "str": [rng.choice(["a", "üñ", "", "x y", "long " * 20]) for _ in range(n)],
                     "bool": [rng.random() < 0.5 for _ in range(n)]}[typ]
             pname = rng.choice(["p", "prop", "ü", "q.r"]) + str(pi)
             # (units as other tools wrote them: with a micro sign, a Greek mu, blanks - they are content and must read as before)
             unit, defi = rng.choice([None, "mV", "s", "µV", "μs", "mV / ms", "mumol", "k Ohm"]), rng.choice([None, "defn", "ü def"])
-            prop_paths.append(("%s/properties/%s" % (h5path, pname), typ, vals, unit, defi, pname, h5path))
+            prop_paths.append(("%s/properties/%s" % (h5path, pname), typ, vals, unit, defi, pname, h5path, ityp))
         if depth < 2:
             for ci in range(rng.randint(0, 2)):
                 mk_section(s, "sub%d" % ci, "%s/sections/sub%d" % (h5path, ci), depth + 1)
@@ -129,12 +136,12 @@ def build_old_file(nix, np, rng, path):
             da = h[ap]
             dim = da["dimensions/1"]
             dim[da.attrs["entity_id"]] = da
-        for (ppath, typ, vals, unit, defi, pname, spath) in prop_paths:
+        for (ppath, typ, vals, unit, defi, pname, spath, ityp) in prop_paths:
             sec = h[spath]
             props = sec["properties"] if "properties" in sec else U.create_h5group(sec, "properties")
-            vt = {"int": np.int64, "float": np.float64, "str": vs, "bool": np.bool_}[typ]
+            vt = {"int": np.dtype(ityp or "int64").type, "float": np.float64, "str": vs, "bool": np.bool_}[typ]
             n = len(vals)
-            rec = {"type": typ, "values": list(vals), "unit": unit, "definition": defi, "section": spath, "name": pname, "extras": None}
+            rec = {"type": typ, "stored_as": ityp, "values": list(vals), "unit": unit, "definition": defi, "section": spath, "name": pname, "extras": None}
             if compound:
                 dt = np.dtype([("value", vt), ("uncertainty", "f8"), ("reference", vs), ("filename", vs), ("encoder", vs), ("checksum", vs)])
                 arr = np.zeros(n, dtype=dt)
